@@ -482,6 +482,8 @@ impl Config for RoundTrip {
     }
     fn replay(&self, rp: &Value) -> Result<(), String> {
         let hist: Vec<MapOp> = serde_json::from_value(rp["history"].clone()).map_err(|e| format!("MACHINERY: bad replay: {e}"))?;
+        // the violation may come from the underlying search itself
+        crate::report::BfsConfig::new(self.label(), self.harness(), Limits::default()).replay(rp)?;
         match env::catch(|| self.one(&self.harness(), &hist)) {
             Ok(r) => r,
             Err(m) => Err(m),
